@@ -397,19 +397,436 @@ def _lean_pieces(ps):
     return '[' + ', '.join(_lean_piece(p) for p in ps) + ']'
 
 
-def tables(repo):
+# --------------------------------------------------------------------------- probing route
+# The same table derived by EXECUTING the dispatcher of the tree under test: scenario probes on the
+# real `handleMethodCallMessage` with a stub connection.  Candidates for names the source chooses
+# freely (built-in interface / member names, attribute prefix, caller keyword) are the string
+# constants of txdbus/objects.py, whatever syntactic position they have.
+MK_PATH, MK_CHILD, MK_IFACE, MK_MEMBER = '/zq7/xk9', '/zq7/xk9/ch', 'zq7.xk9.Iface', 'Zq7Member'
+MK_SENDER = ':1.779'
+
+
+class _Conn:
+    def __init__(self):
+        self.sent = []
+
+    def sendMessage(self, m):
+        from txdbus import message
+        self.sent.append(message.parseMessage(m.rawMessage, []))
+
+
+def _call(handler, path, member, iface=None, sig=None, body=None, expect=True, sender=MK_SENDER):
+    """Send one call (real bytes, parsed back); returns (replies as parsed from the wire, exception escaping)."""
+    from txdbus import message
+    m = message.MethodCallMessage(path, member, interface=iface, destination=':1.1', signature=sig,
+                                  body=body if sig else None, expectReply=expect)
+    m.serial = 4242
+    if sender is not None:
+        m.sender = sender
+    m._marshal(newSerial=False)
+    msg = message.parseMessage(m.rawMessage, [])
+    handler.conn.sent.clear()
+    try:
+        handler.handleMethodCallMessage(msg)
+        exc = None
+    except Exception as e:      # noqa
+        exc = e
+    return list(handler.conn.sent), exc
+
+
+def _mk_handler(objs):
+    from txdbus import objects
+    h = objects.DBusObjectHandler(_Conn())
+    for o in objs:
+        h.exportObject(o)
+    h.conn.sent.clear()
+    return h
+
+
+def _string_constants(repo):
+    tree = ast.parse(open(os.path.join(repo, 'txdbus', 'objects.py'), encoding='utf-8').read())
+    out = []
+    for n in ast.walk(tree):
+        if isinstance(n, ast.Constant) and isinstance(n.value, str) and n.value not in out:
+            out.append(n.value)
+    return out
+
+
+def _is_ret(r):
+    from txdbus import message
+    return isinstance(r, message.MethodReturnMessage)
+
+
+def _is_err(r):
+    from txdbus import message
+    return isinstance(r, message.ErrorMessage)
+
+
+def _pieces_from_text(text, slots, what):
+    """Split `text` into literal pieces and slots; `slots`: kind -> marker value (distinct, unusual)."""
+    pieces, i, lit = [], 0, ''
+    order = sorted(slots.items(), key=lambda kv: -len(kv[1]))
+    while i < len(text):
+        for kind, val in order:
+            if val and text.startswith(val, i):
+                if lit:
+                    pieces.append(('lit', lit))
+                    lit = ''
+                pieces.append((kind, None))
+                i += len(val)
+                break
+        else:
+            lit += text[i]
+            i += 1
+    if lit:
+        pieces.append(('lit', lit))
+    return pieces
+
+
+def _default_of(pieces, kind, text_without, slots, what):
+    """The text a slot shows when its value is None/'' : render the other pieces, the rest is the default."""
+    idx = [k for k, p in enumerate(pieces) if p[0] == kind]
+    if not idx:
+        return None
+    def render(ps):
+        return ''.join(p[1] if p[0] == 'lit' else slots[p[0]] for p in ps)
+    k = idx[0]
+    pre, post = render(pieces[:k]), render([p for p in pieces[k + 1:] if p[0] != kind])
+    if len(idx) > 1 or not (text_without.startswith(pre) and text_without.endswith(post)
+                            and len(text_without) >= len(pre) + len(post)):
+        raise TranslatorError('%s: cannot isolate the default of slot %s in %r' % (what, kind, text_without))
+    return text_without[len(pre):len(text_without) - len(post)]
+
+
+def probe_tables(repo):
+    """Every entry of the table, derived by running the code."""
+    from txdbus import objects, interface
+    consts = _string_constants(repo)
+    ident = [c for c in consts if c.isidentifier()]
+    dotted = [c for c in consts if '.' in c and all(x.isidentifier() for x in c.split('.')) and ' ' not in c]
+    log = []
+
+    mk_if = interface.DBusInterface(MK_IFACE, interface.Method(MK_MEMBER, 'uay', 's'),
+                                    interface.Method('Zq7NoArgs', '', ''), interface.Method('Zq7Unbound', '', ''),
+                                    noRegister=True)
+
+    # ---- attribute prefix: a constant P such that a method named P + member serves the member
+    prefixes = []
+    for cand in ident:
+        ns = {'dbusInterfaces': [mk_if], cand + 'Zq7NoArgs': lambda self: log.append('run') or None}
+        try:
+            k = type('P', (objects.DBusObject,), ns)
+            h = _mk_handler([k(MK_PATH)])
+        except Exception:
+            continue
+        del log[:]
+        _call(h, MK_PATH, 'Zq7NoArgs', MK_IFACE)
+        if log:
+            prefixes.append(cand)
+    if len(prefixes) != 1:
+        raise TranslatorError('attribute prefix not determined by probing: candidates %r' % (prefixes,))
+    P = prefixes[0]
+
+    def mkclass(**methods):
+        ns = {'dbusInterfaces': [mk_if]}
+        for n, f in methods.items():
+            ns[P + n] = f
+        return type('K', (objects.DBusObject,), ns)
+
+    # ---- caller keyword: a constant K such that `def m(self, K=None)` receives the sender
+    kws = []
+    for cand in ident:
+        got = []
+        try:
+            f = eval('lambda self, %s="<none>": _got.append(%s)' % (cand, cand), {'_got': got})
+        except SyntaxError:
+            continue
+        h = _mk_handler([mkclass(Zq7NoArgs=f)(MK_PATH)])
+        _call(h, MK_PATH, 'Zq7NoArgs', MK_IFACE)
+        if got == [MK_SENDER]:
+            kws.append(cand)
+    if len(kws) != 1:
+        raise TranslatorError('caller keyword not determined by probing: candidates %r' % (kws,))
+    KW = kws[0]
+
+    def caller_probe(src):
+        got = []
+        f = eval(src.replace('KW', KW), {'_got': got, '_M': '<none>'})
+        h = _mk_handler([mkclass(Zq7NoArgs=f)(MK_PATH)])
+        _call(h, MK_PATH, 'Zq7NoArgs', MK_IFACE)
+        return got
+    # the rule the model knows: the LAST NAMED POSITIONAL parameter is the keyword
+    rule_obs = {
+        'last': caller_probe('lambda self, KW=_M: _got.append(KW)'),
+        'then *args': caller_probe('lambda self, KW=_M, *extra: _got.append(KW)'),
+        'then **kw': caller_probe('lambda self, KW=_M, **options: _got.append(KW)'),
+        'then kw-only': caller_probe('lambda self, KW=_M, *, flag=None: _got.append(KW)'),
+        'not last': caller_probe('lambda self, KW=_M, other=None: _got.append(KW)'),
+        'kw-only': caller_probe('lambda self, *a, KW=_M: _got.append(KW)'),
+    }
+    want = {'last': [MK_SENDER], 'then *args': [MK_SENDER], 'then **kw': [MK_SENDER], 'then kw-only': [MK_SENDER],
+            'not last': ['<none>'], 'kw-only': ['<none>']}
+    if rule_obs != want:
+        raise TranslatorError('the rule that decides whether a method asks for the caller is not "last named '
+                              'positional parameter is %r": probes gave %r' % (KW, rule_obs))
+    # minimum length: `def m(KW)` (the instance itself lands in KW): with N <= 1 the call fails, with N >= 2 it runs
+    got = []
+    f = eval('lambda %s: _got.append("ran")' % KW, {'_got': got})
+    h = _mk_handler([mkclass(Zq7NoArgs=f)(MK_PATH)])
+    _call(h, MK_PATH, 'Zq7NoArgs', MK_IFACE)
+    caller_min = 2 if got else 1
+
+    # ---- built-in pairs: answered by the handler itself
+    cls = mkclass(Zq7NoArgs=lambda self: None)
+    h0 = _mk_handler([])
+    h1 = _mk_handler([cls(MK_PATH), cls(MK_CHILD)])
+    roles = {'peer': [], 'introspect': [], 'managed': []}
+    sigs = {}
+    for i in dotted:
+        for m in ident:
+            r0, e0 = _call(h0, '/zq7', m, i)
+            if e0 is None and len(r0) == 1 and _is_ret(r0[0]):
+                roles['peer'].append((i, m))
+                continue
+            ra, ea = _call(h1, '/zq7', m, i)            # an ancestor of exported objects, not exported itself
+            rn, en = _call(h1, '/nope', m, i)           # not a node of the tree
+            rx, exx = _call(h1, MK_PATH, m, i)          # exported, has a child
+            if ea is None and len(ra) == 1 and _is_ret(ra[0]) and len(rn) == 1 and _is_err(rn[0]):
+                roles['introspect'].append((i, m))
+                sigs['introspect'] = ra[0].signature
+            elif exx is None and len(rx) == 1 and _is_ret(rx[0]) and len(ra) == 1 and _is_err(ra[0]) \
+                    and isinstance(rx[0].body, list) and len(rx[0].body) == 1 and isinstance(rx[0].body[0], dict) \
+                    and MK_CHILD in rx[0].body[0]:
+                roles['managed'].append((i, m))
+                sigs['managed'] = rx[0].signature
+    for r, v in roles.items():
+        if len(v) != 1:
+            raise TranslatorError('built-in %s call not determined by probing: candidates %r' % (r, v))
+    builtin = {r: (v[0], sigs.get(r)) for r, v in roles.items()}
+
+    # ---- lookup failures: names, texts, order of checks
+    def one_err(replies, exc, what):
+        if exc is not None or len(replies) != 1 or not _is_err(replies[0]):
+            raise TranslatorError('probe %s: expected one error reply, got %r / %r' % (what, replies, exc))
+        return replies[0].error_name, (replies[0].body[0] if replies[0].body else '')
+    errs = {}
+    # unknown object (also: unknown member and wrong signature at the same time -> which check is first)
+    n, t = one_err(*_call(h1, '/nope/zz', 'Nope', 'no.such.Iface', 'ayu', [b'', 1]), what='unknown object')
+    slots = {'path': '/nope/zz', 'member': 'Nope', 'sigOr': 'ayu', 'ifaceOr': 'no.such.Iface'}
+    errs['unknownObject'] = (n, _pieces_from_text(t, slots, n))
+    # unknown method (member unknown AND signature wrong: member check first)
+    n, t = one_err(*_call(h1, MK_PATH, 'Nope', MK_IFACE, 'ayu', [b'', 1]), what='unknown method')
+    slots = {'path': MK_PATH, 'member': 'Nope', 'sigOr': 'ayu', 'ifaceOr': MK_IFACE}
+    ps = _pieces_from_text(t, slots, n)
+    n2, t2 = one_err(*_call(h1, MK_PATH, 'Nope', None, None, None), what='unknown method without interface / signature')
+    if n2 != n:
+        raise TranslatorError('unknown member with and without interface give different errors: %r %r' % (n, n2))
+    # defaults: one slot at a time
+    _, t_sig = one_err(*_call(h1, MK_PATH, 'Nope', MK_IFACE, None, None), what='unknown method, no signature')
+    _, t_if = one_err(*_call(h1, MK_PATH, 'Nope', None, 'ayu', [b'', 1]), what='unknown method, no interface')
+    out = []
+    for p in ps:
+        if p[0] == 'sigOr':
+            out.append(('sigOr', _default_of(ps, 'sigOr', t_sig, slots, n)))
+        elif p[0] == 'ifaceOr':
+            out.append(('ifaceOr', _default_of(ps, 'ifaceOr', t_if, slots, n)))
+        else:
+            out.append(p)
+    errs['unknownMethod'] = (n, out)
+    um_name = n
+    # invalid args: declared 'uay', sent 'ayu'
+    n, t = one_err(*_call(h1, MK_PATH, MK_MEMBER, MK_IFACE, 'ayu', [b'', 1]), what='invalid args')
+    slots = {'path': MK_PATH, 'member': MK_MEMBER, 'sigOr': 'ayu', 'ifaceOr': MK_IFACE, 'sigInOr': 'uay'}
+    ps = _pieces_from_text(t, slots, n)
+    _, t_sig = one_err(*_call(h1, MK_PATH, MK_MEMBER, MK_IFACE, None, None), what='invalid args, no signature')
+    _, t_in = one_err(*_call(h1, MK_PATH, 'Zq7NoArgs', MK_IFACE, 'ayu', [b'', 1]), what='invalid args, none declared')
+    slots_in = dict(slots, member='Zq7NoArgs')
+    out = []
+    for p in ps:
+        if p[0] == 'sigOr':
+            out.append(('sigOr', _default_of(ps, 'sigOr', t_sig, slots, n)))
+        elif p[0] == 'sigInOr':
+            out.append(('sigInOr', _default_of(ps, 'sigInOr', t_in, slots_in, n)))
+        elif p[0] == 'ifaceOr':
+            raise TranslatorError('InvalidArgs text names the interface: default not probed')
+        else:
+            out.append(p)
+    errs['invalidArgs'] = (n, out)
+    for k in ('unknownObject',):
+        if any(p[0] in ('sigOr', 'ifaceOr', 'sigInOr') for p in errs[k][1]):
+            raise TranslatorError('%s text uses a slot whose default was not probed' % k)
+    # GetManagedObjects failure: a child whose property holds a value that does not marshal
+    pif = interface.DBusInterface('zq7.xk9.Prop', interface.Property('p', 's', writeable=True), noRegister=True)
+
+    def pinit(self, path):
+        objects.DBusObject.__init__(self, path)
+        self.p = 'v'
+    PK = type('PK', (objects.DBusObject,), {'dbusInterfaces': [pif], 'p': objects.DBusProperty('p', 'zq7.xk9.Prop'),
+                                            '__init__': pinit})
+    par, chi = PK(MK_PATH), PK(MK_CHILD)
+    hp = _mk_handler([par, chi])
+    try:
+        chi.p = None
+    except Exception:
+        pass
+    try:
+        hp.getManagedObjects(MK_PATH)
+        raise TranslatorError('probe: a None property value no longer makes getManagedObjects fail')
+    except TranslatorError:
+        raise
+    except Exception as e:      # noqa
+        exc_text = str(e)
+    (mi, mm), _ = builtin['managed']
+    replies, exc = _call(hp, MK_PATH, mm, mi)
+    if exc is not None or len(replies) != 1 or not _is_err(replies[0]):
+        raise TranslatorError('a failing GetManagedObjects is not answered with one error reply (repair C10-02): %r %r'
+                              % (replies, exc))
+    errs['managedFailed'] = (replies[0].error_name,
+                             _pieces_from_text(replies[0].body[0], {'path': MK_PATH, 'excText': exc_text}, 'managed'))
+
+    # ---- order of checks (each probe makes two checks fire; the reply tells which is first)
+    order = []
+    r, e = _call(h0, '/nope', *reversed(builtin['peer'][0]))
+    order.append('ping') if (e is None and len(r) == 1 and _is_ret(r[0])) else None
+    (ii, im), _ = builtin['introspect']
+    r, e = _call(h1, '/zq7', im, ii)
+    order.append('introspect') if (len(r) == 1 and _is_ret(r[0])) else None
+    r, e = _call(h1, '/nope', mm, mi)
+    if len(r) == 1 and _is_err(r[0]) and r[0].error_name == errs['unknownObject'][0]:
+        order += ['object', 'managed']
+    r, e = _call(h1, MK_PATH, 'Nope', mi)         # the managed interface with another member: ordinary lookup
+    if len(r) == 1 and _is_err(r[0]) and r[0].error_name == um_name:
+        order.append('method')
+    order.append('signature')                     # (member unknown AND signature wrong gave UnknownMethod above)
+    if order != ['ping', 'introspect', 'object', 'managed', 'method', 'signature']:
+        raise TranslatorError('the order of the dispatcher\'s checks is not the one the model mirrors: %r' % (order,))
+
+    # ---- reply / no-reply rule
+    ran = []
+    hk = _mk_handler([mkclass(Zq7NoArgs=lambda self: ran.append(1) or None)(MK_PATH)])
+    r1, _ = _call(hk, MK_PATH, 'Zq7NoArgs', MK_IFACE, expect=True)
+    r2, _ = _call(hk, MK_PATH, 'Zq7NoArgs', MK_IFACE, expect=False)
+    r3, _ = _call(hk, '/nope', 'Zq7NoArgs', MK_IFACE, expect=False)
+    reply_rule = {'dispatchedExpectingReplyAnswered': len(ran) == 2 and len(r1) == 1,
+                  'dispatchedNoReplySilent': len(r2) == 0,
+                  'lookupFailureAnsweredWhenNoReply': len(r3) == 1}
+
+    # ---- send_error: prefix, unbound exception, fallback, notice, escape
+    class Zq7Error(Exception):
+        pass
+
+    def raiser(e):
+        def f(self):
+            raise e
+        return f
+    hk = _mk_handler([mkclass(Zq7NoArgs=raiser(Zq7Error('Zq7 text')))(MK_PATH)])
+    n, t = one_err(*_call(hk, MK_PATH, 'Zq7NoArgs', MK_IFACE), what='exception without dbusErrorName')
+    if not n.endswith('Zq7Error') or t != 'Zq7 text':
+        raise TranslatorError('probe: exception reply %r %r' % (n, t))
+    prefix = n[:-len('Zq7Error')]
+    n, t = one_err(*_call(hk, MK_PATH, 'Zq7Unbound', MK_IFACE), what='declared member nothing implements')
+    if not n.startswith(prefix):
+        raise TranslatorError('probe: unbound member answered %r' % n)
+    unbound = n[len(prefix):]
+    bad = Zq7Error('Zq7 text')
+    bad.dbusErrorName = 'zq7 bad name'
+    hk = _mk_handler([mkclass(Zq7NoArgs=raiser(bad))(MK_PATH)])
+    fallback, t = one_err(*_call(hk, MK_PATH, 'Zq7NoArgs', MK_IFACE), what='invalid dbusErrorName')
+    if not t.endswith('Zq7 text') or t.count('zq7 bad name') != 1:
+        raise TranslatorError('probe: invalid-name notice %r' % t)
+    head = t[:-len('Zq7 text')]
+    pre, post = head.split('zq7 bad name')
+    notice = pre.replace('%', '%%') + '%s' + post.replace('%', '%%')
+    hk = _mk_handler([mkclass(Zq7NoArgs=raiser(Zq7Error('a\x00b')))(MK_PATH)])
+    r, e = _call(hk, MK_PATH, 'Zq7NoArgs', MK_IFACE)
+    if len(r) == 1 and _is_err(r[0]) and r[0].body[0].startswith('a') and r[0].body[0].endswith('b'):
+        escape = (0, r[0].body[0][1:-1])
+    elif len(r) == 0:
+        escape = None
+    else:
+        raise TranslatorError('probe: NUL in the exception text gave %r' % (r,))
+    hk = _mk_handler([mkclass(Zq7NoArgs=raiser(Zq7Error('a\udc80b')))(MK_PATH)])
+    r, e = _call(hk, MK_PATH, 'Zq7NoArgs', MK_IFACE)
+    mid = r[0].body[0][1:-1] if (len(r) == 1 and _is_err(r[0])) else None
+    handler = {'\\udc80': 'backslashreplace', '?': 'replace', '': 'ignore', None: None}.get(mid, 'other:%r' % mid)
+
+    return {'builtin': builtin, 'errs': errs, 'prefix': prefix, 'notice': notice, 'fallback': fallback,
+            'escape': escape, 'enc_handler': handler, 'attr_prefix': P, 'unbound': unbound,
+            'caller_kw': KW, 'caller_min': caller_min, 'order': order, 'reply_rule': reply_rule}
+
+
+def _norm_pieces(ps):
+    """Merge adjacent literals, drop empty ones (the two routes must agree up to that)."""
+    out = []
+    for p in ps:
+        if p[0] == 'lit':
+            if not p[1]:
+                continue
+            if out and out[-1][0] == 'lit':
+                out[-1] = ('lit', out[-1][1] + p[1])
+                continue
+        out.append(tuple(p))
+    return out
+
+
+ADVISORIES = []
+
+
+def ast_tables(repo):
+    """The AST route, component by component; returns (table entries recognised, [reasons a shape was not])."""
     src = open(os.path.join(repo, 'txdbus', 'objects.py'), encoding='utf-8').read()
     tree = ast.parse(src)
-    handler = _find_class(tree, 'DBusObjectHandler')
-    obj = _find_class(tree, 'DBusObject')
-    fn = _find_func(handler, 'handleMethodCallMessage')
-    msg = _msg_param(fn)
-    prefix, notice, fallback, escape, enc_handler = send_error_tables(fn)
-    kw, nmin = caller_rule(_find_func(obj, '_set_method_flags'))
-    ex = _find_func(obj, 'executeMethod')
-    return {'builtin': builtin_tests(fn, msg), 'errs': send_err_tables(fn, msg), 'prefix': prefix, 'notice': notice,
-            'fallback': fallback, 'escape': escape, 'enc_handler': enc_handler,
-            'attr_prefix': attr_prefix(ex), 'unbound': unbound_exception(ex), 'caller_kw': kw, 'caller_min': nmin}
+    got, missed = {}, []
+
+    def attempt(keys, thunk):
+        try:
+            vals = thunk()
+            for k, v in zip(keys, vals):
+                got[k] = v
+        except TranslatorError as e:
+            missed.append('%s: %s' % ('/'.join(keys), e))
+    try:
+        handler = _find_class(tree, 'DBusObjectHandler')
+        obj = _find_class(tree, 'DBusObject')
+        fn = _find_func(handler, 'handleMethodCallMessage')
+        msg = _msg_param(fn)
+    except TranslatorError as e:
+        return got, ['classes / handleMethodCallMessage: %s' % e]
+    attempt(['prefix', 'notice', 'fallback', 'escape', 'enc_handler'], lambda: send_error_tables(fn))
+    attempt(['builtin'], lambda: [builtin_tests(fn, msg)])
+    attempt(['errs'], lambda: [send_err_tables(fn, msg)])
+    attempt(['caller_kw', 'caller_min'], lambda: caller_rule(_find_func(obj, '_set_method_flags')))
+    attempt(['attr_prefix'], lambda: [attr_prefix(_find_func(obj, 'executeMethod'))])
+    attempt(['unbound'], lambda: [unbound_exception(_find_func(obj, 'executeMethod'))])
+    return got, missed
+
+
+def tables(repo):
+    """Probing route (always), AST route as cross-check where its shapes are recognised."""
+    del ADVISORIES[:]
+    t = probe_tables(repo)
+    a, missed = ast_tables(repo)
+    for m in missed:
+        ADVISORIES.append('source shape not recognised (%s); the entry was derived by probing the dispatcher' % m)
+
+    def same(key, x, y):
+        if x != y:
+            raise TranslatorError('the AST route and the probing route disagree on %s: %r vs %r' % (key, x, y))
+    for k in ('prefix', 'notice', 'fallback', 'escape', 'attr_prefix', 'unbound', 'caller_kw'):
+        if k in a:
+            same(k, a[k], t[k])
+    if 'enc_handler' in a and a.get('escape') is not None:
+        same('enc_handler', a['enc_handler'], t['enc_handler'])
+    if 'caller_min' in a:
+        same('caller_min', max(a['caller_min'], 1), t['caller_min'])
+    if 'builtin' in a:
+        same('builtin', a['builtin'], t['builtin'])
+    if 'errs' in a:
+        for r in ('unknownObject', 'managedFailed', 'unknownMethod', 'invalidArgs'):
+            same('errs.' + r, (a['errs'][r][0], _norm_pieces(a['errs'][r][1])), (t['errs'][r][0], _norm_pieces(t['errs'][r][1])))
+    for r in t['errs']:
+        t['errs'][r] = (t['errs'][r][0], _norm_pieces(t['errs'][r][1]))
+    return t
 
 
 def emit(repo):
